@@ -3,6 +3,7 @@ from vlib.plan import CH, K
 
 FUNCTIONS = [
     "safeds_stubgen.api_analyzer._types:AbstractType.from_dict",
+    "safeds_stubgen.api_analyzer._types:UnionType.from_dict",
     "safeds_stubgen.api_analyzer._types:BoundaryType.__eq__",
     "safeds_stubgen.api_analyzer._types:TypeVarType.from_dict",
     "safeds_stubgen.api_analyzer._types:EnumType.from_dict",
